@@ -10,6 +10,7 @@ import BindgenModel.Model.FeaturesSpec
 * `feat resolve t=… e=<year|none> opts=<u?c?f?a?>` — `Builder::generate` + decision model of the gate
   sites: `rejected` | `ok edition=<year> emits=<constructs> region_cstr=<b>`
 * `feat oracle t=… e=<year> seen=<constructs>` — ground truth: `ok` | `bad=<constructs>`
+* `feat flag_oracle t=… e=<year> flags=<enabled RustFeatures flags>` — ground truth: `ok` | `bad=<flags>`
 * `feat region_nightly <hex>` — `0|1`
 -/
 namespace BindgenModel.Driver.C14
@@ -65,7 +66,7 @@ def handle (toks : List String) : String :=
     let ea := match earliestStable theTable with | some t => showTarget t | none => "unreachable"
     let de := match (latestStable theTable).bind latestEdition with | some e => toString e.year | none => "panic"
     let dk := match nightlyDecr with | .checked => "checked" | .unchecked => "unchecked"
-    s!"latest={l} earliest={ea} default_edition={de} decr={dk} editions={",".intercalate (Edition.all.map fun e => toString e.year ++ ":" ++ toString e.firstMinor)}"
+    s!"latest={l} earliest={ea} default_edition={de} decr={dk} cstr_gate={b01 cstrCoreGate} editions={",".intercalate (Edition.all.map fun e => toString e.year ++ ":" ++ toString e.firstMinor)}"
   | ["region_nightly", t] =>
     match hexToChars t with
     | some tc => b01 (regionNightlyMinorZero tc)
@@ -93,8 +94,8 @@ def handle (toks : List String) : String :=
           | .unsupportedEdition _ _ => "rejected"
           | .panicNoEdition => "panic"
           | .ok e fs =>
-            let em := Construct.all.filter (emits fs o)
-            s!"ok edition={e.year} emits={",".intercalate (em.map Construct.name)} region_cstr={b01 (regionCoreCStr tg o)}"
+            let em := Construct.all.filter (emits cstrCoreGate fs o)
+            s!"ok edition={e.year} emits={",".intercalate (em.map Construct.name)} region_cstr={b01 (!cstrCoreGate && regionCoreCStr tg o)}"
         else if op == "oracle" then
           match ed with
           | none => "bad-op"
@@ -105,6 +106,13 @@ def handle (toks : List String) : String :=
             | some cs =>
               let bad := cs.filter fun c => !(c.requires.allows tg ed)
               if bad.isEmpty then "ok" else "bad=" ++ ",".intercalate (bad.map Construct.name)
+        else if op == "flag_oracle" then
+          match ed with
+          | none => "bad-op"
+          | some ed =>
+            let on := (((kv rest "flags").getD "").splitOn ",").filter (· ≠ "")
+            let bad := Feature.all.filter fun f => on.contains f.name && !((stabilised f).allows tg ed)
+            if bad.isEmpty then "ok" else "bad=" ++ ",".intercalate (bad.map Feature.name)
         else "bad-op"
   | _ => "bad-op"
 
